@@ -2,6 +2,7 @@ package worldw
 
 import (
 	"bytes"
+	"crypto/rand"
 	"crypto/x509"
 	"encoding/hex"
 	"encoding/json"
@@ -58,7 +59,7 @@ type C13Plan struct {
 }
 
 var c13Ops = []string{"list", "sign", "add", "remove", "removeall", "lock", "unlock", "signers", "addhardcert", "addhardcert_legacy",
-	"listslots", "readslot", "attestslot", "wait", "forward", "addsmartcard", "removesmartcard"}
+	"listslots", "readslot", "attestslot", "wait", "forward", "addsmartcard", "removesmartcard", "signvia"}
 
 var oddComments = []string{"", "plain", "üñí¢ødé ✓", "with \"quotes\" and \\ backslash", "tab\there", "日本語のコメント", "SUCCESS?", "a,b,c"}
 var failTexts = []string{"scripted failure", "agent: locked", "no such key ünï", "x", "failure with \"quotes\"", "SUCCESSFUL NOT", " leading space"}
@@ -285,6 +286,7 @@ func sessionC13(t *testing.T, raw json.RawMessage) *sim.Outcome {
 	}
 	keys.ResetRSA()
 	st := stubFixture()
+	st.keys = append(st.keys, &agent.Key{Format: "ssh-rsa", Blob: keys.Pub(keys.KindRSA, "c13-served-rsa").Marshal(), Comment: "rsa key"})
 	if p.BigCert {
 		st.cert, _ = x509.ParseCertificate(bigCertDER())
 	}
@@ -369,6 +371,10 @@ func sessionC13(t *testing.T, raw json.RawMessage) *sim.Outcome {
 		var gotSlots []string
 		var gotCert *x509.Certificate
 		var gotBytes []byte
+		var viaIdx int
+		var viaKey []byte
+		var viaFlags uint32
+		viaNoAlgo := false
 		func() {
 			defer func() {
 				if r := recover(); r != nil {
@@ -408,6 +414,33 @@ func sessionC13(t *testing.T, raw json.RawMessage) *sim.Outcome {
 			case "forward":
 				rawReq, _ := hex.DecodeString(op.Raw)
 				gotBytes, cerr = cli.Forward(rawReq)
+			case "signvia":
+				// sign through a signer obtained from the client, with the signature algorithm an ssh client would
+				// negotiate for that key (rsa-sha2-256 / rsa-sha2-512 for RSA keys)
+				var sgs []ssh.Signer
+				sgs, cerr = cli.Signers()
+				if cerr != nil || len(sgs) == 0 {
+					break
+				}
+				viaIdx = op.Code % len(sgs)
+				sg := sgs[viaIdx]
+				viaKey = sg.PublicKey().Marshal()
+				algo := map[uint32]string{2: ssh.KeyAlgoRSASHA256, 4: ssh.KeyAlgoRSASHA512}[op.Flags]
+				if sg.PublicKey().Type() != ssh.KeyAlgoRSA {
+					algo = ""
+				}
+				viaFlags = 0
+				if algo != "" {
+					as, ok := sg.(ssh.AlgorithmSigner)
+					if !ok {
+						viaNoAlgo = true
+						break
+					}
+					viaFlags = op.Flags
+					gotSig, cerr = as.SignWithAlgorithm(rand.Reader, data, algo)
+				} else {
+					gotSig, cerr = sg.Sign(rand.Reader, data)
+				}
 			case "addsmartcard":
 				cerr = cli.AddSmartcardKey(op.Comment, passBytes(op.Pass), time.Duration(op.Lifetime)*time.Second, op.Confirm)
 			case "removesmartcard":
@@ -463,6 +496,45 @@ func sessionC13(t *testing.T, raw json.RawMessage) *sim.Outcome {
 		if op.Op == "forward" {
 			rawReq, _ := hex.DecodeString(op.Raw)
 			wantOp = opOf(rawReq[0])
+		}
+		if op.Op == "signvia" {
+			if viaNoAlgo {
+				o.Fail("C13.result", "signer_without_algorithms", i, "%s: the signer for the served RSA key (index %d) cannot sign with rsa-sha2-256 / rsa-sha2-512 (it is no ssh.AlgorithmSigner), the served agent's own signers can", tag, viaIdx)
+				break
+			}
+			// the client builds its signers from one list request; a failing list ends the operation there
+			if len(newCalls) >= 1 && newCalls[0].Op == "list" && op.Fail != "" {
+				if cerr == nil {
+					o.Fail("C13.result", "failure_lost:signvia", i, "%s: the served agent failed the list request but the caller got no error", tag)
+				}
+				continue
+			}
+			if len(newCalls) != 2 || newCalls[0].Op != "list" || newCalls[1].Op != "sign" {
+				var ops []string
+				for _, c := range newCalls {
+					ops = append(ops, c.Op)
+				}
+				o.Fail("C13.dispatch", "dispatch:signvia", i, "%s: served agent saw calls %v, want a list and a sign request", tag, ops)
+				break
+			}
+			c := newCalls[1]
+			if !bytes.Equal(c.Blob, viaKey) || !bytes.Equal(viaKey, st.keys[viaIdx].Blob) {
+				o.Fail("C13.args", "args:signvia:key", i, "%s: served agent was asked to sign with another key than that of signer %d", tag, viaIdx)
+			}
+			if !bytes.Equal(c.Data, data) {
+				o.Fail("C13.args", "args:signvia:data", i, "%s: served agent received %d bytes to sign, the caller gave %d", tag, len(c.Data), len(data))
+			}
+			if c.Flags != viaFlags {
+				o.Fail("C13.args", "args:signvia:flags", i, "%s: served agent received signature flags %d, the requested algorithm corresponds to %d", tag, c.Flags, viaFlags)
+			}
+			if cerr != nil {
+				o.Fail("C13.result", "spurious_error:signvia", i, "%s: the served agent succeeded but the caller got error %v", tag, cerr)
+			} else if gotSig == nil || gotSig.Format != st.sig.Format || !bytes.Equal(gotSig.Blob, st.sig.Blob) {
+				o.Fail("C13.result", "signature", i, "%s: signature differs from the served one", tag)
+			} else {
+				o.Probe("signed_through_client_signer")
+			}
+			continue
 		}
 		if len(newCalls) != 1 || newCalls[0].Op != wantOp {
 			var ops []string
@@ -628,6 +700,23 @@ func sessionC13(t *testing.T, raw json.RawMessage) *sim.Outcome {
 	a.Close()
 	b.Close()
 	<-done
+	// what the served agent was given must still be what it was given, whatever was served afterwards
+	for ci, c := range st.calls {
+		if c.Kept == nil || c.Blob == nil {
+			continue
+		}
+		var now []byte
+		func() {
+			defer func() { recover() }()
+			now = c.Kept.Marshal()
+		}()
+		if !bytes.Equal(now, c.Blob) {
+			o.Fail("C13.args", "args:kept_key_changed:"+c.Op, ci, "the key / certificate the served agent received in its call %d (%s) no longer encodes to the bytes it had then: later requests on the connection changed it", ci, c.Op)
+			break
+		} else if ci < len(st.calls)-1 {
+			o.Probe("kept_key_intact_after_later_requests")
+		}
+	}
 	if srvPanic != nil && o.All == nil {
 		o.Fail("C13.no_crash", "server_panic:"+panicSite(srvStack), len(p.Ops), "the server side crashed: %v", srvPanic)
 	}
